@@ -159,6 +159,10 @@ class C09(Check):
         for rk in itertools.product(*[range(1, n + 2) for n in shape]):
             yield dict(base, alg="tucker", rank=list(rk), svd="truncated_svd", iters=2, tol=0)
             yield dict(base, alg="tucker", rank=list(rk), svd="truncated_svd", iters=1, tol=None)
+        # ---- Tucker under the einsum tensor-algebra backend (HOSVD only, and with sweeps)
+        for rk in itertools.product(*[range(1, n + 2) for n in shape]):
+            yield dict(base, alg="tucker", rank=list(rk), svd="truncated_svd", iters=0, tenalg="einsum")
+            yield dict(base, alg="tucker", rank=list(rk), svd="truncated_svd", iters=2, tenalg="einsum")
         # ---- int64-dtype input for the integer-valued family (truncated_svd; full rank space of TT and TR, HOSVD+HOOI for Tucker)
         if fam == "integer":
             for rk in R.tt_rank_space(shape):
@@ -209,7 +213,13 @@ class C09(Check):
                 self._shared = None
                 return
         try:
-            getattr(self, "_run_" + alg)(case, ctx)
+            if case.get("tenalg"):  # configuration axis: the second tensor-algebra implementation (Tucker projects with multi_mode_dot)
+                import tensorly as tl
+
+                with tl.tenalg.backend_context(case["tenalg"], local_threadsafe=True):
+                    getattr(self, "_run_" + alg)(case, ctx)
+            else:
+                getattr(self, "_run_" + alg)(case, ctx)
         finally:
             self._shared = None
 
